@@ -38,6 +38,9 @@ func main() {
 		runCodec(os.Args[2:])
 	case "cluster":
 		runCluster(os.Args[2:])
+	case "rendezvous":
+		setupLogger()
+		runRendezvous(os.Args[2:])
 	default:
 		fmt.Fprintln(os.Stderr, "unknown engine", os.Args[1])
 		os.Exit(2)
